@@ -610,9 +610,13 @@ def kinds_of(case):
     return kinds
 
 
-def oracle(ctx: Ctx, case, m, before) -> bool:
-    """every steady equation text holds at dates -5..5 on the stored path, for every variant; plan-fixed values are kept"""
+def oracle(ctx: Ctx, case, m, before, tol=TOL_ORACLE, payload=None, note="") -> bool:
+    """every steady equation text holds at dates -5..5 on the stored path, for every variant; plan-fixed values are kept.
+    `tol`: relative threshold, derived by the caller from the tolerance in force at the solve that is being judged;
+    `payload`: what a replay needs when the case is one step of a multi-step session"""
     kinds = kinds_of(case)
+    _cfj = case_for_json
+    case_for_json_ = (lambda c: payload) if payload is not None else _cfj
     ok = True
     name_to_qid = m.create_name_to_qid()
     texts = [f"{to_text(l)} = {to_text(r)}" for (l, r) in case["teqs"] + case["meqs"]]
@@ -633,10 +637,10 @@ def oracle(ctx: Ctx, case, m, before) -> bool:
             for t in ([0, 1] if collapsed else DATES):
                 r, scale = oracle_residual(code, kinds, levels, changes, t)
                 ctx.evaluations += 1
-                if not (abs(r) <= TOL_ORACLE * scale):
+                if not (abs(r) <= tol * scale):
                     ok = False
-                    ctx.fail("steady-equation-residual", case_for_json(case),
-                             f"variant {vid}: `{text}` at date {t:+d}: residual {r!r} on the stored steady path (scale {scale:.3g})")
+                    ctx.fail("steady-equation-residual", case_for_json_(case),
+                             f"{note}variant {vid}: `{text}` at date {t:+d}: residual {r!r} on the stored steady path (scale {scale:.3g}, allowed {tol:g})")
                     break
                 if abs(r) / scale > worst[0]:
                     worst = (abs(r) / scale, text)
@@ -645,9 +649,9 @@ def oracle(ctx: Ctx, case, m, before) -> bool:
         for (l, r) in case["autos"]:
             code = compile_text(f"{to_text(l)} = {to_text(r)}")
             res, scale = oracle_residual(code, kinds, levels, changes, 0)
-            if not (abs(res) <= TOL_ORACLE * scale):
+            if not (abs(res) <= tol * scale):
                 ok = False
-                ctx.fail("autovalue-equation", case_for_json(case), f"variant {vid}: `{to_text(l)} = {to_text(r)}`: residual {res!r} after solve_steady")
+                ctx.fail("autovalue-equation", case_for_json_(case), f"variant {vid}: `{to_text(l)} = {to_text(r)}`: residual {res!r} after solve_steady")
         # frame: quantities fixed or exogenized by the plan keep their assigned values
         if case["plan"]:
             lv0, ch0 = before[vid]
@@ -656,35 +660,35 @@ def oracle(ctx: Ctx, case, m, before) -> bool:
                 q = name_to_qid[n]
                 if v.levels[q] != lv0[q] or (not case["flat"] and v.changes[q] != ch0[q]):
                     ok = False
-                    ctx.fail("plan-exogenized-changed", case_for_json(case), f"variant {vid}: exogenized {n}: ({lv0[q]}, {ch0[q]}) -> ({v.levels[q]}, {v.changes[q]})")
+                    ctx.fail("plan-exogenized-changed", case_for_json_(case), f"variant {vid}: exogenized {n}: ({lv0[q]}, {ch0[q]}) -> ({v.levels[q]}, {v.changes[q]})")
             for n in p["fixed_level"]:
                 q = name_to_qid[n]
                 if v.levels[q] != lv0[q]:
                     ok = False
-                    ctx.fail("plan-fixed-level-changed", case_for_json(case), f"variant {vid}: fixed level of {n}: {lv0[q]} -> {v.levels[q]}")
+                    ctx.fail("plan-fixed-level-changed", case_for_json_(case), f"variant {vid}: fixed level of {n}: {lv0[q]} -> {v.levels[q]}")
             for n in p["fixed_change"]:
                 q = name_to_qid[n]
                 if v.changes[q] != ch0[q]:
                     ok = False
-                    ctx.fail("plan-fixed-change-changed", case_for_json(case), f"variant {vid}: fixed change of {n}: {ch0[q]} -> {v.changes[q]}")
+                    ctx.fail("plan-fixed-change-changed", case_for_json_(case), f"variant {vid}: fixed change of {n}: {ch0[q]} -> {v.changes[q]}")
             # parameters that are not endogenized (and not autovalue targets) are never touched
             for n in case["params"]:
                 q = name_to_qid[n]
                 if n not in p["endogenized"] and n not in auto_lhs and v.levels[q] != lv0[q]:
                     ok = False
-                    ctx.fail("parameter-changed", case_for_json(case), f"variant {vid}: parameter {n}: {lv0[q]} -> {v.levels[q]}")
+                    ctx.fail("parameter-changed", case_for_json_(case), f"variant {vid}: parameter {n}: {lv0[q]} -> {v.levels[q]}")
     # the implementation's own observation point
     try:
         with contextlib.redirect_stdout(io.StringIO()):
             _, info = m.check_steady(return_info=True, when_fails="silent", unpack_singleton=False)
         for vid, i in enumerate(info):
             d = np.abs(np.array(i["discrepancies"], dtype=float))
-            if d.size and not (np.nanmax(d) <= 1e-7) or np.isnan(d).any():
+            if d.size and not (np.nanmax(d) <= max(1e-7, 10 * tol)) or np.isnan(d).any():
                 ok = False
-                ctx.fail("check-steady-discrepancy", case_for_json(case), f"variant {vid}: check_steady discrepancies up to {np.nanmax(d)!r}")
+                ctx.fail("check-steady-discrepancy", case_for_json_(case), f"variant {vid}: check_steady discrepancies up to {np.nanmax(d)!r}")
     except Exception as e:
         ok = False
-        ctx.fail("check-steady-raises", case_for_json(case), repr(e)[:300])
+        ctx.fail("check-steady-raises", case_for_json_(case), repr(e)[:300])
     return ok
 
 
@@ -1086,6 +1090,200 @@ def end_to_end_default_entry(ctx: Ctx, case):
 
 
 # ---------------------------------------------------------------------------------------
+# options in force at a call: flag overrides and exit-test tolerance (streams `flags`, `settings`)
+# ---------------------------------------------------------------------------------------
+
+_TINY = """
+!transition-variables
+    x
+!parameters
+    rho
+!transition-equations
+    x = rho*x[-1] + 1;
+"""
+
+
+def run_flags(ctx: Ctx):
+    """Simultaneous.resolve_flags for every creation flag pair and every override pair (None / False / True), plus the one
+    derived observable the steady machinery reads from it (steady plannable: changes can be fixed iff not flat)"""
+    lines, impl = [], []
+    enc = {None: "-", True: "1", False: "0"}
+    for cl in (False, True):
+        for cf in (False, True):
+            m = ir.Simultaneous.from_string(_TINY, linear=cl, flat=cf)
+            for ol in (None, False, True):
+                for of in (None, False, True):
+                    kw = {}
+                    if ol is not None: kw["linear"] = ol
+                    if of is not None: kw["flat"] = of
+                    f = m.resolve_flags(**kw)
+                    pl = m.get_steady_plannable(**kw)
+                    lines.append(f"flags {enc[cl]} {enc[cf]} {enc[ol]} {enc[of]}")
+                    out = f"{1 if f.is_linear else 0} {1 if f.is_flat else 0}"
+                    if bool(pl.can_be_fixed_change) == bool(f.is_flat):
+                        out += " plannable-inconsistent"
+                    impl.append(out)
+    ctx.compare("flags", lines, impl, ctx.model("C05", lines))
+    ctx.evaluations += len(lines)
+
+
+def run_settings(ctx: Ctx):
+    """sequences of calls of create_solver_settings_for_<solver>: the tolerance of each call depends on that call's
+    arguments only (user value if given, else the equality tolerance passed in)"""
+    rng = ctx.rng.fork("settings")
+    lines, impl = [], []
+    grid = [1e-12, 1e-3, 1e-6, 1e-10, 1e-8, 0.5 ** 20]
+    for _ in range(ctx.n(6, 40)):
+        for _ in range(rng.randint(3, 8)):
+            solver = rng.choice(list(SOLVERS))
+            key = "func_tolerance" if solver == "neqs_levenberg" else "tol"
+            user = rng.choice(grid) if rng.chance(0.35) else None
+            eq = rng.choice(grid)
+            us = None if user is None and rng.chance(0.5) else ({key: user} if user is not None else {})
+            try:
+                d = getattr(SD, "create_solver_settings_for_" + solver)(user_solver_settings=us, self_equality_tolerance=eq)
+                out = rat_of_float(d[key])
+            except Exception as e:
+                out = "err:" + type(e).__name__
+            lines.append(f"tol {rat_of_float(user) if user is not None else '-'} {rat_of_float(eq)}")
+            impl.append(out)
+            ctx.count("settings_calls")
+    ctx.compare("settings", lines, impl, ctx.model("C05", lines))
+    ctx.evaluations += len(lines)
+
+
+# ---------------------------------------------------------------------------------------
+# multi-step sessions on one model object: tolerance overrides / resets, re-assignments, per-call flag overrides in
+# both directions, solver options -- every solve that completes is judged against the options in force at that call
+# ---------------------------------------------------------------------------------------
+
+LOOSE = [1e-3, 1e-5, 1e-7]
+
+
+def gen_session(seed: int) -> dict:
+    rng = Rng(seed)
+    s_linear = rng.chance(0.5)                  # structure: are the equations linear / is the steady state flat
+    s_flat = rng.chance(0.35)
+    case = gen_case(Rng(rng.next()), {"linear": s_linear, "flat": s_flat})
+    create_linear = s_linear and rng.chance(0.65)
+    create_flat = rng.chance(0.5)               # independent of the structure: the right mode is then requested per call
+    steps = []
+    params = [p for p in case["params"] if p[0] in "adg" and not p.startswith("aux") and not p.startswith("al")]
+    nsolve = 0
+    for _ in range(rng.randint(3, 7)):
+        op = rng.weighted([("solve", 5), ("override", 2), ("reset", 2), ("assign", 3)])
+        if op == "override":
+            steps.append({"op": "override_tolerance", "equality": rng.choice(LOOSE + [1e-10])})
+        elif op == "reset":
+            steps.append({"op": "reset_tolerance"})
+        elif op == "assign" and params:
+            p = rng.choice(params)
+            steps.append({"op": "assign", "name": p, "factor": rng.choice([1.25, 0.75, 1.5]), "shift": rng.choice([0.0, 0.25, -0.125])})
+        else:
+            nsolve += 1
+            steps.append(gen_solve_step(rng, case, s_linear, create_linear))
+    if nsolve < 2:
+        steps.append({"op": "assign", "name": rng.choice(params), "factor": 1.25, "shift": 0.125} if params else {"op": "reset_tolerance"})
+        steps.append(gen_solve_step(rng, case, s_linear, create_linear))
+    return {"sess_seed": seed, "case": case, "create_linear": create_linear, "create_flat": create_flat, "steps": steps}
+
+
+def gen_solve_step(rng: Rng, case, s_linear, create_linear) -> dict:
+    want_linear = s_linear and rng.chance(0.6)             # a structurally linear model may be solved by either algorithm
+    solver = rng.choice(list(SOLVERS))
+    return {"op": "solve", "linear_in_force": want_linear,
+            "explicit_same": rng.chance(0.4),              # pass an override even when it repeats the creation flag
+            "solver": solver, "user_tol": rng.choice(LOOSE) if rng.chance(0.3) else None,
+            "split": rng.choice([None, True, False]), "use_plan": rng.chance(0.7)}
+
+
+def session_for_json(sess, upto=None):
+    return {"sess_seed": sess["sess_seed"], "source": sess["case"]["source"], "create_linear": sess["create_linear"],
+            "create_flat": sess["create_flat"], "structure": {"linear": sess["case"]["linear"], "flat": sess["case"]["flat"]},
+            "params": sess["case"]["params"], "init": sess["case"]["init"], "plan": sess["case"]["plan"],
+            "steps": sess["steps"][: (upto + 1) if upto is not None else None]}
+
+
+def run_session(ctx: Ctx, sess) -> None:
+    case = sess["case"]
+    s_flat = case["flat"]
+    try:
+        created = dict(case, linear=sess["create_linear"], flat=sess["create_flat"], plan=None)
+        m, _ = build(created)
+        plan = None
+        if case["plan"]:
+            # the plan is made for the mode that will be requested (fix_change only exists in growth mode)
+            kw = {} if sess["create_flat"] == s_flat else {"flat": s_flat}
+            plan = ir.SteadyPlan(m, **kw)
+            p = case["plan"]
+            if p["exogenized"]: plan.exogenize(p["exogenized"])
+            if p["endogenized"]: plan.endogenize(p["endogenized"])
+            if p["fixed_level"]: plan.fix_level(p["fixed_level"])
+            if p["fixed_change"]: plan.fix_change(p["fixed_change"])
+    except Exception as e:
+        ctx.count("session_build_failed")
+        ctx.extra.setdefault("session_build_failures", [])
+        if len(ctx.extra["session_build_failures"]) < 4:
+            ctx.extra["session_build_failures"].append(repr(e)[:200])
+        return
+    ctx.count("sessions")
+    ctx.count(f"session_created:linear={sess['create_linear']},flat={sess['create_flat']};structure:linear={case['linear']},flat={s_flat}")
+    equality = 1e-12
+    current = {k: list(v) for k, v in case["params"].items()}
+    for i, st in enumerate(sess["steps"]):
+        op = st["op"]
+        if op == "override_tolerance":
+            m.override_tolerance(equality=st["equality"]); equality = st["equality"]
+        elif op == "reset_tolerance":
+            m.reset_tolerance(); equality = 1e-12
+        elif op == "assign":
+            current[st["name"]] = [v * st["factor"] + st["shift"] for v in current[st["name"]]]
+            m.assign(**{st["name"]: current[st["name"]] if case["nv"] > 1 else current[st["name"]][0]})
+        else:
+            kwargs = {}
+            lin = st["linear_in_force"]
+            if lin != sess["create_linear"] or st["explicit_same"]: kwargs["linear"] = lin
+            if s_flat != sess["create_flat"] or st["explicit_same"]: kwargs["flat"] = s_flat
+            tol_in_force = equality
+            use_plan = plan is not None and st["use_plan"] and not lin
+            if not lin:
+                if st["solver"] != "neqs_levenberg": kwargs["solver"] = st["solver"]
+                if st["user_tol"] is not None:
+                    kwargs["solver_settings"] = {("func_tolerance" if st["solver"] == "neqs_levenberg" else "tol"): st["user_tol"]}
+                    tol_in_force = st["user_tol"]
+                if st["split"] is not None: kwargs["split_into_blocks"] = st["split"]
+                if use_plan: kwargs["plan"] = plan
+            before = snapshot(m)
+            try:
+                with contextlib.redirect_stdout(io.StringIO()), np.errstate(all="ignore"):
+                    m.solve_steady(**kwargs)
+            except Exception as e:
+                ctx.count("session_solve_raised")
+                continue
+            ctx.count("session_solves_completed")
+            ctx.count("session_solve:" + ("linear" if lin else "nonlinear:" + st["solver"]) + (":flat" if s_flat else ":growth")
+                      + (":override" if ("flat" in kwargs and s_flat != sess["create_flat"]) else "")
+                      + (":loose" if tol_in_force > 1e-9 else ""))
+            # the judge: a linear solve is exact; an iterative one was stopped by the tolerance in force at this call
+            tol = TOL_ORACLE if lin else max(TOL_ORACLE, 200.0 * tol_in_force)
+            judged = dict(case, plan=case["plan"] if use_plan else None,
+                          params={k: v for k, v in current.items()})
+            oracle(ctx, judged, m, before, tol=tol, payload=session_for_json(sess, i),
+                   note=f"step {i} ({'linear' if lin else st['solver']}, kwargs {sorted(k for k in kwargs if k != 'plan')}, tolerance in force {tol_in_force:g}): ")
+            ctx.nontriv(("session", sess["create_linear"], sess["create_flat"], case["linear"], s_flat, lin, st["solver"] if not lin else "",
+                         tol_in_force, equality, i))
+
+
+def run_sessions(ctx: Ctx, n: int, tag="sessions"):
+    rng = ctx.rng.fork(tag)
+    for _ in range(n):
+        sess = gen_session(rng.next())
+        run_session(ctx, sess)
+        if len(ctx.samples) < 8 and ctx.counts.get("sessions", 0) == 3:
+            ctx.sample(session_for_json(sess))
+
+
+# ---------------------------------------------------------------------------------------
 # entry points
 # ---------------------------------------------------------------------------------------
 
@@ -1112,16 +1310,24 @@ def run(ctx: Ctx):
                 "log-linear growth, rational balanced growth with log-variables, stationary products/ratios, Solow with real power), "
                 "linear/nonlinear x flat/growth, 1-3 variants, split_into_blocks in {None, True, False}, steady plans (swap, fix level, "
                 "fix change), solver option in {neqs_levenberg, scipy_root}; plus a hard-start family (cubic / quadratic residuals with local "
-                "extrema or no real root, product-sum systems, overdetermining plans) from good and bad starting points with both solvers. "
+                "extrema or no real root, product-sum systems, overdetermining plans) from good and bad starting points with both solvers; "
+                "multi-step sessions on one model object (override/reset of the equality tolerance, solver_settings tolerances, parameter "
+                "re-assignments, per-call linear/flat overrides in both directions on models created with either flag), each completed "
+                "solve judged against the options in force at that call; exhaustive flag-resolution table. "
                 "distinct_nontrivial = distinct (linear, flat, variants, split, module list, plan?, #equations, solver) among "
                 "solved cases, plus distinct non-constant path requests")
     for path, payload in corpus_cases():
         replay(ctx, payload)
         ctx.count("corpus_replayed")
     run_paths(ctx)
+    run_flags(ctx)
+    # multi-step sessions come before everything else that solves: whatever state a solve leaves behind in the process
+    # (module-level defaults, caches) is then empty at the start, and the later streams run on top of it
+    run_sessions(ctx, ctx.n(36, 400))
+    run_settings(ctx)
     rng = ctx.rng.fork("cases")
     pending, models = [], []
-    ncases = ctx.n(70, 900)
+    ncases = ctx.n(60, 900)
     for i in range(ncases):
         seed = rng.next()
         force = None
@@ -1173,8 +1379,15 @@ def search(ctx: Ctx, seeds):
             case = gen_case(Rng(c["gen_seed"]), c.get("force")); case["gen_seed"], case["force"] = c["gen_seed"], c.get("force")
             run_case(ctx, case, pending, with_model=False)
             end_to_end_default_entry(ctx, case)
+    for s in seeds:
+        c = s.get("case") if isinstance(s, dict) else None
+        if isinstance(c, dict) and "sess_seed" in c:
+            run_session(ctx, gen_session(c["sess_seed"]))
+    run_sessions(ctx, 300, tag="search-sessions")
     rng = ctx.rng.fork("search")
     for i in range(1500):
+        if len(ctx.failures) >= 3:
+            break
         seed = rng.next()
         force = {"hard": True} if i % 3 == 2 else None
         case = gen_case(Rng(seed), force); case["gen_seed"], case["force"] = seed, force
@@ -1190,6 +1403,9 @@ def replay(ctx: Ctx, payload):
     if not isinstance(c, dict):
         return
     pending = []
+    if "sess_seed" in c:
+        run_session(ctx, gen_session(c["sess_seed"]))
+        return
     if "gen_seed" in c:
         case = gen_case(Rng(c["gen_seed"]), c.get("force")); case["gen_seed"], case["force"] = c["gen_seed"], c.get("force")
         run_case(ctx, case, pending)
